@@ -195,7 +195,7 @@ Fixpoint zd_loop (fuel : nat) (nested : list (list Z)) (cap : option Z) (cont : 
 Fixpoint argmin_first (l : list (Z * Q)) (best : Z * Q) : Z * Q :=
   match l with [] => best | (k, v) :: t => if qltb v (snd best) then argmin_first t (k, v) else argmin_first t best end.
 
-Record zd_out := { zd_outer : Z; zd_sel : Z; zd_tr_outer : trace; zd_tr : list (Z * trace) }.
+Record zd_out := { zd_outer : Z; zd_sel : Z; zd_tr_outer : trace; zd_tr : list (Z * trace); zd_escaped : bool }.
 Definition searchZD (nested : list (list Z)) (cap : option Z) (cont : bool) (max_iter : nat) (e : oracle2)
            (drill : Z -> Z -> Q) : result zd_out :=
   if lenZ nested =? 0 then Err IndexError else
@@ -213,15 +213,25 @@ Definition searchZD (nested : list (list Z)) (cap : option Z) (cont : bool) (max
       | [] => Err ValueError                                   (* min() of an empty sequence *)
       | h0 :: rest =>
         let '(ko, _) := argmin_first rest h0 in
-        let calc := match find (fun kc => fst kc =? ko) calcs with Some kc => snd kc | None => [] end in
+        match find (fun kc => fst kc =? ko) calcs with
+        | None => Err ValueError      (* unreachable: the temperatures of a list are recorded together with its drilling *)
+        | Some kc =>
+        let calc := snd kc in
         let values := map snd calc in
         let negs := filter (fun v => qleb v 0) values in
         match negs with
-        | [] => Err ValueError
+        | [] =>
+          (* no field of the chosen list meets the limits (the search of that list escaped through continue_if_design_unmet):
+             the field that search returned is kept.  The search is a function of its inputs, so it is simply evaluated again here. *)
+          match search1d (nthZ nested ko) cap cont max_iter (e ko) with
+          | Ok o2 => Ok {| zd_outer := ko; zd_sel := sel o2; zd_tr_outer := tr_out o; zd_tr := tr; zd_escaped := true |}
+          | Err x => Err x
+          end
         | _ => match index_of_value calc (qmaxl negs) with
-               | Some k => Ok {| zd_outer := ko; zd_sel := k; zd_tr_outer := tr_out o; zd_tr := tr |}
+               | Some k => Ok {| zd_outer := ko; zd_sel := k; zd_tr_outer := tr_out o; zd_tr := tr; zd_escaped := false |}
                | None => Err ValueError
                end
+        end
         end
       end
     end
